@@ -139,7 +139,7 @@ class IrProtocolBase(object):
             self._tolerance = xml.tolerance
             self._frequency_tolerance = xml.frequency_tolerance
 
-            for code in xml.Codes:
+            for code in xml:
                 code = IRCode.load_from_xml(code, self)
                 code.save()
 
